@@ -45,6 +45,10 @@ CONSUMERS = {
     "pp": (DATA_KINDS, None, "print"), "pp-depth": (["tuple", "array", "struct", "table", "carray"], None, "print"),
     "marshal": (DATA_KINDS, None, "marshal"), "unmarshal": (["tuple", "btuple", "array", "struct", "table", "wide"], None, "marshal"),
     "unmarshal-defs": (["tuple"], None, "marshal"), "unmarshal-abstract": (["tuple"], None, "marshal"),
+    # one consumer per recursive edge kind of unmarshal: value of a function environment, funcdef constant, environment
+    # of a fiber's stack frame, fiber child (sub-def and abstract payload are the two above)
+    "unmarshal-env": (["tuple"], None, "marshal"), "unmarshal-constants": (["tuple"], None, "marshal"),
+    "unmarshal-fiber-env": (["tuple"], None, "marshal"), "unmarshal-fiber-child": (["tuple"], None, "marshal"),
     "compile-destructure-head": (["btuple"], None, "compile"),
     "freeze": (DATA_KINDS, None, "freeze"), "thaw": (DATA_KINDS, None, "freeze"),
     "gc": (DATA_KINDS, None, "gc"), "gc-closures": (["tuple"], None, "gc"), "gc-fibers": (["tuple"], None, "gc"),
@@ -78,12 +82,17 @@ ENTRY_CONSUMERS = {
     "janet_mark_funcenv": ["gc-fibers", "gc-closures"], "janet_mark_funcdef": ["asm-disasm", "disasm"],
     "build_struct_type": ["ffi-struct"], "decode_ffi_type": ["ffi-struct"], "janet_ffi_read_one": ["ffi-struct-chain"],
     "janet_ffi_write_one": ["ffi-write-chain"], "sysv64_classify_ext": ["ffi-sig-chain"],
-    "unmarshal_one_def": ["unmarshal-defs"], "unmarshal_one_abstract": ["unmarshal-abstract"],
+    "unmarshal_one_def": ["unmarshal-defs", "unmarshal-constants"], "unmarshal_one_abstract": ["unmarshal-abstract"],
+    "unmarshal_one_env": ["unmarshal-env", "unmarshal-fiber-env"], "unmarshal_one_fiber": ["unmarshal-fiber-child", "unmarshal-fiber-env"],
 }
 GROUP_OF_PREFIX = [("janet_mark", "gc"), ("marshal_", "marshal"), ("unmarshal_", "marshal"), ("janetc_", "compile"),
                    ("peg_", "peg"), ("spec_", "peg"), ("janet_pretty", "print"), ("print_jdn", "print"),
                    ("janet_formatb", "print"), ("run_vm", "call"), ("janet_call", "call"), ("janet_continue", "call"),
                    ("quasiquote", "compile"), ("macroexpand", "macro")]
+
+
+UNMARSHAL_EDGE_CONSUMERS = ["unmarshal-defs", "unmarshal-abstract", "unmarshal-env", "unmarshal-constants", "unmarshal-fiber-env",
+                            "unmarshal-fiber-child"]
 
 
 def depth_schedule(limits, tier, top):
@@ -436,7 +445,7 @@ def run(ctx, only=None):
     if g and any(pth[1] == "peg_rule" for pth in g.unbalanced):
         suspects += ["peg-comb", "peg-match"]
     if g and g.deptharg["cycles"]:
-        suspects += ["marshal", "unmarshal", "unmarshal-defs", "unmarshal-abstract"]
+        suspects += ["marshal", "unmarshal"] + UNMARSHAL_EDGE_CONSUMERS
     if st and not st.all_transfer:
         suspects += ["nest-macro-compile", "nest-peg-cmt", "nest-qq"]
     # a linear recursion that survives depth D under 8 MB survives D/8 under 1 MB, and no C frame is smaller than 32
@@ -477,6 +486,13 @@ def run(ctx, only=None):
         all_crashes += crashes + cr2
         ctx.say("sweep %s: %d consumer x kind combinations, %d runs, %d crashes (%.0fs)" % (
             label, len(table), sum(len(r) for r in table.values()), len(crashes) + len(cr2), time.time() - t0))
+    # the image builders of the unmarshal consumers cut real images apart: they must work at depth 1 on this tree
+    for c in UNMARSHAL_EDGE_CONSUMERS + ["unmarshal"]:
+        for (cc, k), res in sorted(tables.get("plain-8MB", {}).items()):
+            if cc == c and res and not str(res.get(min(res), "")).startswith("ok"):
+                broken.append("sweep consumer %s/%s does not work on this tree at depth %d: %s (image builder of harness/C19/sweep.janet no longer fits the marshal format)"
+                              % (c, k, min(res), res.get(min(res))))
+                ctx.broken.append(broken[-1])
     # report ---------------------------------------------------------------------------------------------------
     observations = []
     by_consumer = {}
